@@ -5,6 +5,7 @@ LEVEL = 'proof'
 
 
 def build(ctx):
+    ctx.task('contracts.pipeline:task_pipeline')      # assemble() establishes what each pass contract assumes
     common.pass_tasks(ctx, ['transform_compressible', 'transform_pseudo_instructions', 'resolve_aligns'])
     common.encoder_tasks(ctx, lambda m: m.startswith('c.'), parts=('legal',))
     ctx.assume('cross-mode clause: proved per step (no step grows an item, labels only move down within a run); the relational '
